@@ -1,24 +1,30 @@
 /-
 Model of `earthkit.workflows.backends` (src/earthkit/workflows/backends/__init__.py,
 arrayapi.py, xarray.py): the fifteen array operations and the way fluent `reduce` applies a
-function marked `@batchable`.  No imports: `Rat` (exact rationals) is part of core Lean.
+function marked `@batchable`.  Core Lean only.
 
-Arrays are exact and total: a rank, an extent per axis and a value per index, where an index
-is a function `axis ↦ position`.  Values outside the extents are never inspected by the
-driver; the operations are nevertheless defined on every index so that the theorems are
-plain equalities of arrays (no "up to bounds" relation is needed).
+Arrays are total: a rank, an extent per axis and a value per index, where an index is a function
+`axis ↦ position`.  Values outside the extents are never inspected by the driver; the operations
+are nevertheless defined on every index so that the theorems are plain equalities of arrays.
 
-One model serves both backends: the array-API backend addresses an axis by number, the xarray
+The element type `α` is a parameter and the arithmetic of one dtype is a record `Alg α`
+(`add`, `mul`, `min`, …): the same definitions serve
+  * `Alg.rat`   exact rationals (the reference semantics "no rounding, no overflow"),
+  * `Alg.wrap`  NumPy's fixed-width integers (int64, int32, uint8, uint64: results wrap),
+  * `Alg.bool`  NumPy's bool (`+` is or, `*` is and),
+  * `Alg.f64`   IEEE-754 binary64 with NaN and ±inf and round-to-nearest-even after every
+                operation (Model/F64.lean),
+and the theorems say for which algebras a law holds (associativity of the dtype's `add` is a
+hypothesis of `c15_sum_batchable`; it is proved for the first three and refuted for binary64).
+
+One model serves both back ends: the array-API backend addresses an axis by number, the xarray
 backend by dimension name; the harness translates the name into the position the dimension has
-in the operand (that is all `dim=` means for values).  What differs between the back ends for
-the same value semantics (which kwarg carries the axis, `**NEW**` helper dimension, `isel`) is
-below the level of this model and is covered by running both back ends against it.
+in the operand (that is all `dim=` means for values).  Where the back ends differ in WHETHER they
+return a value (broadcasting rules, labelled coordinates, which keyword carries the axis) the
+difference is in `Model/BackendRun.lean` (`errorOf`), not in the value semantics below.
 -/
 
 namespace EkwVerif.Backend
-
-/-- exact values: integers embedded in the rationals (`mean`, `var`, `divide` leave ℤ) -/
-abbrev Val := Rat
 
 /-- an index: position along every axis (positions of axes ≥ rank are ignored) -/
 abbrev Idx := Nat → Nat
@@ -32,20 +38,21 @@ def ins (i : Idx) (a v : Nat) : Idx := fun k => if k < a then i k else if k = a 
 def del (i : Idx) (a : Nat) : Idx := fun k => if k < a then i k else i (k + 1)
 end Idx
 
-structure Arr where
+structure Arr (α : Type) where
   rank : Nat
   /-- extent along axis `k` (meaningful for `k < rank`) -/
   ext : Nat → Nat
-  get : Idx → Val
+  get : Idx → α
 
 namespace Arr
-def scalar (v : Val) : Arr := ⟨0, fun _ => 0, fun _ => v⟩
+variable {α : Type}
+def scalar (v : α) : Arr α := ⟨0, fun _ => 0, fun _ => v⟩
 /-- what the total functions return where the Python code raises (never printed: the driver
-reports `error` whenever `valid` is false) -/
-def zero : Arr := scalar 0
+reports an error token whenever `errorOf` finds a reason) -/
+def zero [Inhabited α] : Arr α := scalar default
 /-- a vector, for examples -/
-def vec (l : List Val) : Arr := ⟨1, fun _ => l.length, fun i => l.getD (i 0) 0⟩
-def shape (x : Arr) : List Nat := (List.range x.rank).map x.ext
+def vec [Inhabited α] (l : List α) : Arr α := ⟨1, fun _ => l.length, fun i => l.getD (i 0) default⟩
+def shape (x : Arr α) : List Nat := (List.range x.rank).map x.ext
 end Arr
 
 /-- all indices of a `rank`-dimensional box, row-major (C order, like `ndarray.flatten`) -/
@@ -54,7 +61,7 @@ def idxs : Nat → (Nat → Nat) → List Idx
   | r + 1, ext => (List.range (ext 0)).flatMap fun j => (idxs r (fun k => ext (k + 1))).map (fun i => Idx.ins i 0 j)
 
 /-- the elements in row-major order -/
-def Arr.elems (x : Arr) : List Val := (idxs x.rank x.ext).map x.get
+def Arr.elems {α : Type} (x : Arr α) : List α := (idxs x.rank x.ext).map x.get
 
 /-! ### the operations (names as in `Backend`) -/
 
@@ -73,108 +80,168 @@ def Op.arity : Op → Option Nat
   | .take => some 1
   | _ => none
 
-/-- second positional argument of `take` -/
+/-- second positional argument of `take` (a 0-d index array and a NumPy integer scalar behave
+like a Python int: the axis is removed) -/
 inductive IndexArg where
   | int (i : Int)
   | seq (is : List Int)
 
-/-- keyword arguments that matter for values: `axis=` (array API) / position of `dim=` (xarray);
-`take`'s `indices` rides along -/
+/-- the `axis=` (array API) / position(s) of `dim=` (xarray) argument: absent, one axis, or a
+tuple / list of axes (`axis=(0, 2)`, `dim=["d0", "d2"]`) -/
+inductive AxisArg where
+  | none
+  | one (a : Int)
+  | many (as : List Int)
+
+/-- keyword arguments that matter for values; `take`'s `indices` rides along -/
 structure Kw where
-  axis : Option Int := none
+  axis : AxisArg := .none
   index : IndexArg := .int 0
 
-/-! ### scalar level: what a reduction does to the list of values it sees -/
+/-! ### scalar level: the arithmetic of one dtype and what a reduction does to the values it sees -/
+
+/-- the arithmetic of one dtype -/
+structure Alg (α : Type) where
+  add : α → α → α
+  sub : α → α → α
+  mul : α → α → α
+  div : α → α → α
+  pow : α → α → α
+  min : α → α → α
+  max : α → α → α
+  /-- value of an empty sum -/
+  zero : α
+  /-- value of an empty product -/
+  one : α
+  /-- the element count as a value (divisor of `mean`) -/
+  ofNat : Nat → α
+
+section scalar
+variable {α : Type}
 
 /-- left fold without a unit (`d` only for the empty list) -/
-def fold1 (op : Val → Val → Val) (d : Val) : List Val → Val
+def fold1 (op : α → α → α) (d : α) : List α → α
   | [] => d
   | x :: xs => xs.foldl op x
 
-def vsum : List Val → Val := fold1 (· + ·) 0
-def vprod : List Val → Val := fold1 (· * ·) 1
-def vmin : List Val → Val := fold1 min 0
-def vmax : List Val → Val := fold1 max 0
-def vmean (xs : List Val) : Val := vsum xs / (xs.length : Nat)
-/-- population variance (`ddof = 0`, the default of NumPy and xarray) -/
-def vvar (xs : List Val) : Val := vmean (xs.map fun x => (x - vmean xs) * (x - vmean xs))
+def vsum (A : Alg α) : List α → α := fold1 A.add A.zero
+def vprod (A : Alg α) : List α → α := fold1 A.mul A.one
+/-- (`min` / `max` of nothing raise in NumPy: `errorOf`) -/
+def vmin (A : Alg α) : List α → α := fold1 A.min A.zero
+def vmax (A : Alg α) : List α → α := fold1 A.max A.zero
+def vmean (A : Alg α) (xs : List α) : α := A.div (vsum A xs) (A.ofNat xs.length)
+/-- population variance (`ddof = 0`, the default of NumPy and xarray), computed as NumPy does:
+mean, deviations, squares, mean -/
+def vvar (A : Alg α) (xs : List α) : α :=
+  vmean A (xs.map fun x => A.mul (A.sub x (vmean A xs)) (A.sub x (vmean A xs)))
 /-- `std = sqrt ∘ var`.  The square root is a parameter: the theorems hold for every function
 `sq` that is right on 0 and 1; the driver prints the radicand (`sq := id`) and the harness
-squares the float the implementation returns. -/
-def vstd (sq : Val → Val) (xs : List Val) : Val := sq (vvar xs)
+takes the (correctly rounded) root of it. -/
+def vstd (A : Alg α) (sq : α → α) (xs : List α) : α := sq (vvar A xs)
+
+end scalar
 
 /-! ### array level -/
 
 /-- a negative axis / index counts from the end -/
 def normAx (a : Int) (n : Nat) : Nat := if a < 0 then (a + n).toNat else a.toNat
 
+section array
+variable {α : Type} [Inhabited α]
+
 /-- `xp.stack(args, axis=a)` / `XArrayBackend.stack(*args, dim=new, axis=a)` for equal shapes -/
-def stack (a : Nat) (args : List Arr) : Arr :=
+def stack (a : Nat) (args : List (Arr α)) : Arr α :=
   let h := args.headD Arr.zero
   { rank := h.rank + 1
     ext := Idx.ins h.ext a args.length
     get := fun i => (args.getD (i a) Arr.zero).get (Idx.del i a) }
 
 /-- `getattr(xp, name)(x, axis=a)` / `x.<name>(dim=…)` -/
-def reduceAx (f : List Val → Val) (a : Nat) (x : Arr) : Arr :=
+def reduceAx (f : List α → α) (a : Nat) (x : Arr α) : Arr α :=
   { rank := x.rank - 1
     ext := Idx.del x.ext a
     get := fun i => f ((List.range (x.ext a)).map fun j => x.get (Idx.ins i a j)) }
 
 /-- no `axis`/`dim`: reduction over all elements -/
-def reduceAll (f : List Val → Val) (x : Arr) : Arr :=
+def reduceAll (f : List α → α) (x : Arr α) : Arr α :=
   { rank := 0, ext := fun _ => 0, get := fun _ => f x.elems }
 
-def reduceKw (f : List Val → Val) (axis : Option Int) (x : Arr) : Arr :=
+/-- the positions of the sub-box spanned by the axes `as` (row-major in the order given),
+every other position as in `i` -/
+def subIdxs (ext : Nat → Nat) : List Nat → Idx → List Idx
+  | [], i => [i]
+  | a :: as, i => (List.range (ext a)).flatMap fun j => subIdxs ext as (Idx.set i a j)
+
+/-- insert the (ascending) axes `as` into an index of the reduced array -/
+def expandIdx (i : Idx) (as : List Nat) : Idx := as.foldl (fun i a => Idx.ins i a 0) i
+
+/-- remove the (ascending) axes `as` from the extents -/
+def delAxes (ext : Nat → Nat) (as : List Nat) : Nat → Nat := as.reverse.foldl (fun e a => Idx.del e a) ext
+
+/-- `axis=(a₁,…,aₘ)` / `dim=[…]`: reduction over several axes at once (`as` ascending, distinct) -/
+def reduceAxes (f : List α → α) (as : List Nat) (x : Arr α) : Arr α :=
+  { rank := x.rank - as.length
+    ext := delAxes x.ext as
+    get := fun i => f ((subIdxs x.ext as (expandIdx i as)).map x.get) }
+
+/-- insertion sort of axis numbers (ascending) -/
+def sortAxes : List Nat → List Nat
+  | [] => []
+  | a :: as => let s := sortAxes as; s.takeWhile (· < a) ++ a :: s.dropWhile (· < a)
+
+def reduceKw (f : List α → α) (axis : AxisArg) (x : Arr α) : Arr α :=
   match axis with
-  | none => reduceAll f x
-  | some a => reduceAx f (normAx a x.rank) x
+  | .none => reduceAll f x
+  | .one a => reduceAx f (normAx a x.rank) x
+  | .many as => reduceAxes f (sortAxes (as.map fun a => normAx a x.rank)) x
 
 /-- `_xp_multi_args` / `XArrayBackend.multi_arg_function`: one argument → reduce it with the
 given kwargs; several → stack on a new leading axis and reduce that axis (the caller's `axis`
 / `dim` is overwritten). -/
-def multiArg (f : List Val → Val) (axis : Option Int) : List Arr → Arr
+def multiArg (f : List α → α) (axis : AxisArg) : List (Arr α) → Arr α
   | [x] => reduceKw f axis x
   | args => reduceAx f 0 (stack 0 args)
 
+def axisOne : AxisArg → Int
+  | .one a => a
+  | _ => 0
+
 /-- `stack(*args, axis=a)`; default axis 0; negative axes count from the end of the RESULT -/
-def stackKw (axis : Option Int) (args : List Arr) : Arr :=
-  stack (normAx (axis.getD 0) ((args.headD Arr.zero).rank + 1)) args
+def stackKw (axis : AxisArg) (args : List (Arr α)) : Arr α :=
+  stack (normAx (axisOne axis) ((args.headD Arr.zero).rank + 1)) args
 
 /-- position `j` in the concatenation of segments `(length, accessor)`.  The last segment is
 not bounded (positions beyond the end are never inspected; this makes `concat [x] = x` and the
 batch law hold as equalities). -/
-def catAt : List (Nat × (Nat → Val)) → Nat → Val
-  | [], _ => 0
+def catAt : List (Nat × (Nat → α)) → Nat → α
+  | [], _ => default
   | (n, g) :: rest, j => if rest.isEmpty || decide (j < n) then g j else catAt rest (j - n)
 
-def sumExt (a : Nat) (args : List Arr) : Nat := (args.map (fun x => x.ext a)).sum
+def sumExt (a : Nat) (args : List (Arr α)) : Nat := (args.map (fun x => x.ext a)).sum
 
 /-- `xp.concat(args, axis=a)` / `xr.concat(args, dim=…)` along an existing axis -/
-def concat (a : Nat) (args : List Arr) : Arr :=
+def concat (a : Nat) (args : List (Arr α)) : Arr α :=
   let h := args.headD Arr.zero
   { rank := h.rank
     ext := Idx.set h.ext a (sumExt a args)
     get := fun i => catAt (args.map fun x => (x.ext a, fun r => x.get (Idx.set i a r))) (i a) }
 
-def concatKw (axis : Option Int) (args : List Arr) : Arr :=
-  concat (normAx (axis.getD 0) (args.headD Arr.zero).rank) args
+def concatKw (axis : AxisArg) (args : List (Arr α)) : Arr α :=
+  concat (normAx (axisOne axis) (args.headD Arr.zero).rank) args
 
-/-- elementwise binary operation; a rank-0 operand (Python scalar) broadcasts -/
-def bin (f : Val → Val → Val) (x y : Arr) : Arr :=
+/-- elementwise binary operation on operands of equal shape; a rank-0 operand (Python scalar)
+broadcasts.  (General NumPy broadcasting is the pre-pass `broadcastArgs` below.) -/
+def bin (f : α → α → α) (x y : Arr α) : Arr α :=
   if y.rank ≤ x.rank then { rank := x.rank, ext := x.ext, get := fun i => f (x.get i) (y.get i) }
   else { rank := y.rank, ext := y.ext, get := fun i => f (x.get i) (y.get i) }
 
 /-- `@num_args(2)` -/
-def binArgs (f : Val → Val → Val) : List Arr → Arr
+def binArgs (f : α → α → α) : List (Arr α) → Arr α
   | [x, y] => bin f x y
   | _ => Arr.zero
 
-/-- integer power (the domain is: exponent a non-negative integer) -/
-def vpow (a b : Val) : Val := a ^ b.num.toNat
-
 /-- `take(array, indices, dim=d)`: an integer index removes the axis, a sequence keeps it -/
-def take (x : Arr) (ix : IndexArg) (d : Int) : Arr :=
+def take (x : Arr α) (ix : IndexArg) (d : Int) : Arr α :=
   let a := normAx d x.rank
   match ix with
   | .int j =>
@@ -184,90 +251,131 @@ def take (x : Arr) (ix : IndexArg) (d : Int) : Arr :=
     { rank := x.rank, ext := Idx.set x.ext a js.length
       get := fun i => x.get (Idx.set i a (normAx (js.getD (i a) 0) (x.ext a))) }
 
-def takeArgs (kw : Kw) : List Arr → Arr
-  | [x] => take x kw.index (kw.axis.getD 0)
+/-- `dim` is a required keyword of `take` (absent: `TypeError`, see `errorOf`) -/
+def takeArgs (kw : Kw) : List (Arr α) → Arr α
+  | [x] => (match kw.axis with | .one d => take x kw.index d | _ => Arr.zero)
   | _ => Arr.zero
 
-/-- meaning of `backends.<op>(*args, **kw)` -/
-def sem (sq : Val → Val) (kw : Kw) : Op → List Arr → Arr
-  | .mean => multiArg vmean kw.axis
-  | .std => multiArg (vstd sq) kw.axis
-  | .max => multiArg vmax kw.axis
-  | .min => multiArg vmin kw.axis
-  | .sum => multiArg vsum kw.axis
-  | .prod => multiArg vprod kw.axis
-  | .var => multiArg vvar kw.axis
+/-- meaning of `backends.<op>(*args, **kw)` on arguments of one dtype with arithmetic `A` -/
+def sem (A : Alg α) (sq : α → α) (kw : Kw) : Op → List (Arr α) → Arr α
+  | .mean => multiArg (vmean A) kw.axis
+  | .std => multiArg (vstd A sq) kw.axis
+  | .max => multiArg (vmax A) kw.axis
+  | .min => multiArg (vmin A) kw.axis
+  | .sum => multiArg (vsum A) kw.axis
+  | .prod => multiArg (vprod A) kw.axis
+  | .var => multiArg (vvar A) kw.axis
   | .stack => stackKw kw.axis
   | .concat => concatKw kw.axis
-  | .add => binArgs (· + ·)
-  | .subtract => binArgs (· - ·)
-  | .multiply => binArgs (· * ·)
-  | .divide => binArgs (· / ·)
-  | .pow => binArgs vpow
+  | .add => binArgs A.add
+  | .subtract => binArgs A.sub
+  | .multiply => binArgs A.mul
+  | .divide => binArgs A.div
+  | .pow => binArgs A.pow
   | .take => takeArgs kw
 
-/-! ### where the Python code raises (used by the driver only) -/
+/-! ### NumPy broadcasting (pre-pass of `stack`, the binary operations and, on xarray, the
+multi-argument reductions) -/
 
-def axisOk (a : Int) (n : Nat) : Bool := decide (-(n : Int) ≤ a) && decide (a < n)
+/-- broadcast of two extents; `none`: incompatible -/
+def bext (m n : Nat) : Option Nat := if m = n then some m else if m = 1 then some n else if n = 1 then some m else none
 
-def sameShape (args : List Arr) : Bool :=
-  match args with
-  | [] => true
-  | x :: rest => rest.all fun y => y.shape == x.shape
+/-- right-aligned broadcast of two shapes -/
+def bshape2 (s t : List Nat) : Option (List Nat) :=
+  let r := Nat.max s.length t.length
+  let s' := List.replicate (r - s.length) 1 ++ s
+  let t' := List.replicate (r - t.length) 1 ++ t
+  (List.zipWith bext s' t').foldr (fun o acc => match o, acc with | some e, some l => some (e :: l) | _, _ => none) (some [])
 
-def positive (x : Arr) : Bool := x.shape.all (0 < ·)
+def bshape : List (List Nat) → Option (List Nat)
+  | [] => some []
+  | s :: rest => rest.foldl (fun acc t => acc.bind fun u => bshape2 u t) (some s)
 
-def isReduction : Op → Bool
-  | .mean | .std | .max | .min | .sum | .prod | .var => true
-  | _ => false
+/-- view of `x` with the (compatible) shape `sh`: leading axes are added, extents 1 stretch -/
+def bcastTo (sh : List Nat) (x : Arr α) : Arr α :=
+  let off := sh.length - x.rank
+  { rank := sh.length
+    ext := fun k => sh.getD k 0
+    get := fun i => x.get fun k => if x.ext k = 1 then 0 else i (k + off) }
 
-def valid (kw : Kw) (op : Op) (args : List Arr) : Bool :=
-  if isReduction op then
-    match args with
-    | [] => false
-    | [x] => positive x && (match kw.axis with | none => true | some a => axisOk a x.rank)
-    | _ => sameShape args && args.all positive
-  else match op, args with
-  | .stack, x :: _ => sameShape args && axisOk (kw.axis.getD 0) (x.rank + 1)
-  | .concat, x :: _ =>
-    let a := normAx (kw.axis.getD 0) x.rank
-    axisOk (kw.axis.getD 0) x.rank &&
-      args.all fun y => y.rank == x.rank &&
-        (List.range x.rank).all fun k => k == a || y.ext k == x.ext k
-  | .take, [x] =>
-    let a := normAx (kw.axis.getD 0) x.rank
-    axisOk (kw.axis.getD 0) x.rank &&
-      (match kw.index with
-       | .int j => axisOk j (x.ext a)
-       | .seq js => js.all fun j => axisOk j (x.ext a))
-  | .divide, [x, y] => (x.rank == 0 || y.rank == 0 || sameShape args) && y.elems.all (· != 0)
-  | .pow, [x, y] => (x.rank == 0 || y.rank == 0 || sameShape args) && y.elems.all (fun e => e.den == 1 && 0 ≤ e.num)
-  | .add, [x, y] | .subtract, [x, y] | .multiply, [x, y] => x.rank == 0 || y.rank == 0 || sameShape args
-  | _, _ => false
+def broadcastArgs (args : List (Arr α)) : List (Arr α) :=
+  match bshape (args.map Arr.shape) with
+  | some sh => args.map (bcastTo sh)
+  | none => args
+
+end array
 
 /-! ### batching, exactly as fluent `reduce` + `_batch_transform` apply a batchable function -/
 
+section batching
+variable {α : Type}
+
 /-- one batch: a chunk of length 1 is passed through unreduced, a longer one is reduced -/
-def applyBatch (f : List Arr → Arr) : List Arr → Arr
+def applyBatch (f : List (Arr α) → Arr α) : List (Arr α) → Arr α
   | [x] => x
   | b => f b
 
 /-- the batched computation: reduce each batch, then reduce the results -/
-def batched (f : List Arr → Arr) (batches : List (List Arr)) : Arr :=
+def batched (f : List (Arr α) → Arr α) (batches : List (List (Arr α))) : Arr α :=
   f (batches.map (applyBatch f))
 
 /-- `f` is batchable: for every way of cutting the argument list into at least two non-empty
 batches (`reduce` batches only when `batch_size < size`, so there are always ≥ 2), reducing the
 batches first gives the same array as reducing everything at once.  The arguments of one
 reduction are results of one node array: they all have the same rank `r`. -/
-def IsBatchable (f : List Arr → Arr) : Prop :=
-  ∀ (r : Nat) (batches : List (List Arr)), 2 ≤ batches.length → (∀ b ∈ batches, b ≠ []) →
+def IsBatchable (f : List (Arr α) → Arr α) : Prop :=
+  ∀ (r : Nat) (batches : List (List (Arr α))), 2 ≤ batches.length → (∀ b ∈ batches, b ≠ []) →
     (∀ b ∈ batches, ∀ x ∈ b, x.rank = r) →
     batched f batches = f batches.flatten
 
+/-- the law exactly as the property text writes it: EVERY batch, also one of a single array,
+goes through `f`, and a partition may consist of one batch -/
+def batchedLit (f : List (Arr α) → Arr α) (batches : List (List (Arr α))) : Arr α :=
+  f (batches.map f)
+
+/-- `f(f(batch_1), …, f(batch_k)) = f(all inputs)` for every partition into (non-empty,
+consecutive) batches, k ≥ 1 -/
+def IsBatchableLit (f : List (Arr α) → Arr α) : Prop :=
+  ∀ (r : Nat) (batches : List (List (Arr α))), batches ≠ [] → (∀ b ∈ batches, b ≠ []) →
+    (∀ b ∈ batches, ∀ x ∈ b, x.rank = r) →
+    batchedLit f batches = f batches.flatten
+
+/-- the partitions on which the literal reading and fluent `reduce` coincide: at least two
+batches, none of them a single array (decidable) -/
+def NoSingleton (batches : List (List (Arr α))) : Bool :=
+  decide (2 ≤ batches.length) && batches.all fun b => decide (2 ≤ b.length)
+
 /-- cut `args` into consecutive batches of the given sizes (driver) -/
-def cut : List Nat → List Arr → List (List Arr)
+def cut : List Nat → List (Arr α) → List (List (Arr α))
   | [], _ => []
   | n :: ns, args => args.take n :: cut ns (args.drop n)
+
+end batching
+
+/-! ### concrete arithmetics -/
+
+/-- exact rationals: no rounding, no overflow (`pow`: exponent a non-negative integer) -/
+def Alg.rat : Alg Rat :=
+  { add := (· + ·), sub := (· - ·), mul := (· * ·), div := (· / ·), pow := fun a b => a ^ b.num.toNat,
+    min := Min.min, max := Max.max, zero := 0, one := 1, ofNat := fun n => (n : Rat) }
+
+/-- NumPy's fixed-width integer: the representative of `x` modulo `2^bits` in the signed /
+unsigned range -/
+def wrapInt (bits : Nat) (signed : Bool) (x : Int) : Int :=
+  if signed then Int.bmod x (2 ^ bits) else x % ((2 ^ bits : Nat) : Int)
+
+/-- fixed-width integers (int64 = `wrap 64 true`, uint8 = `wrap 8 false`, …); `div` is floor
+division (not used by the fifteen operations: `divide` and `mean` of integers are computed in
+binary64) -/
+def Alg.wrap (bits : Nat) (signed : Bool) : Alg Int :=
+  { add := fun a b => wrapInt bits signed (a + b), sub := fun a b => wrapInt bits signed (a - b),
+    mul := fun a b => wrapInt bits signed (a * b), div := fun a b => wrapInt bits signed (Int.fdiv a b),
+    pow := fun a b => wrapInt bits signed (a ^ b.toNat), min := Min.min, max := Max.max,
+    zero := 0, one := wrapInt bits signed 1, ofNat := fun n => wrapInt bits signed n }
+
+/-- NumPy's bool as 0 / 1: `+` and `max` are "or", `*` and `min` are "and" (`-` raises) -/
+def Alg.bool : Alg Int :=
+  { add := Max.max, sub := fun a _ => a, mul := Min.min, div := fun a _ => a, pow := fun a _ => a,
+    min := Min.min, max := Max.max, zero := 0, one := 1, ofNat := fun n => if n = 0 then 0 else 1 }
 
 end EkwVerif.Backend
